@@ -418,19 +418,25 @@ void *
 qb_rb_chunk_alloc(struct qb_ringbuffer_s * rb, size_t len)
 {
 	uint32_t write_pt;
+	int32_t never_fits;
 
 	if (rb == NULL) {
 		errno = EINVAL;
 		return NULL;
 	}
 	/*
+	 * What the empty ring cannot hold: compared without adding to len,
+	 * a length just below SIZE_MAX plus the margin is a small number.
+	 */
+	never_fits = (len > (rb->shared_hdr->word_size * sizeof(uint32_t)) -
+		      QB_RB_CHUNK_MARGIN);
+	/*
 	 * Reclaim data if we are over writing and we need space
 	 */
 	if (rb->flags & QB_RB_FLAG_OVERWRITE) {
-		/* what the empty ring cannot hold is refused before, not after,
-		 * every chunk has been dropped to make room for it */
-		if ((len + QB_RB_CHUNK_MARGIN) >
-		    (rb->shared_hdr->word_size * sizeof(uint32_t))) {
+		/* refused before, not after, every chunk has been dropped to
+		 * make room for it */
+		if (never_fits) {
 			errno = EINVAL;
 			return NULL;
 		}
@@ -441,7 +447,8 @@ qb_rb_chunk_alloc(struct qb_ringbuffer_s * rb, size_t len)
 			}
 		}
 	} else {
-		if (qb_rb_space_free(rb) < (len + QB_RB_CHUNK_MARGIN)) {
+		if (never_fits ||
+		    qb_rb_space_free(rb) < (len + QB_RB_CHUNK_MARGIN)) {
 			errno = EAGAIN;
 			return NULL;
 		}
